@@ -123,6 +123,12 @@ impl Connection {
             // Discard the frame for unknown message from the buffer
             Err(Error::UnknownId(_)) => {
                 let len = crs.position() as usize;
+
+                // Body of unknown message has not arrived yet
+                if self.buffer.len() < len {
+                    return Ok(None);
+                }
+
                 self.buffer.advance(len);
 
                 Ok(None)
